@@ -8,6 +8,8 @@ Leg T: the replayed executions (plus longer random ones, in-memory and SQLite da
        keys distinct within and across rounds, ids from the dataset, datasets matching ids.
 """
 import json
+
+import numpy as np
 import os
 import subprocess
 import sys
@@ -123,7 +125,8 @@ def run(ctx):
     seeds = [0, 1, 4242] if (ci % 2 == 0 or big) else [0, 7]
     if n > 1000:
       seeds = [0]
-    pending.append((ci, kind, cohort, fdk, n, seed, buffer, hists, [(hs, job) for hs in seeds]))
+    # the second execution of every configuration has a second sampler (other cohort size, other seed) sampling alongside
+    pending.append((ci, kind, cohort, fdk, n, seed, buffer, hists, [(hs, dict(job, noise=(si == 1))) for si, hs in enumerate(seeds)]))
   import concurrent.futures as cf
   with cf.ThreadPoolExecutor(max_workers=12) as ex:
     futs = {}
@@ -170,6 +173,34 @@ def run(ctx):
   ctx.leg('R', behaviours=len(cases))
   ctx.leg('T', configurations=len(trs), events=sum(len(t['events']) for t in trs))
   ctx.sample({'cfg': trs[0]['meta']['cfg'], 'events': [{k: x for k, x in e.items()} for e in trs[0]['events'][:12]]})
+
+  # datasets that come and go in one process (cross-validation folds, sweeps): a sampler over a NEW dataset object that the
+  # interpreter placed at the address of a dropped one (observed through id(), counted) draws from the new dataset's clients,
+  # and draws what a sampler over a dataset that was never dropped draws
+  import fedjax  # pylint: disable=g-import-not-at-top
+  reused, prev_id, bad_fold = 0, None, None
+  keep, wants, datas = [], [], []
+  for fold in range(24):
+    ids_f = [b'fold%02d-%d' % (fold, j) for j in range(6)]
+    datas.append({c: {'x': np.arange(j + 1) + fold} for j, c in enumerate(ids_f)})
+    keep.append(fedjax.InMemoryFederatedData(datas[-1]))
+    wants.append([c for c, _, _ in fedjax.client_samplers.UniformGetClientSampler(keep[-1], 3, seed=17, start_round_num=2).sample()])
+  for fold in range(24):
+    # (nothing else is allocated between dropping one dataset and building the next)
+    fd_f = fedjax.InMemoryFederatedData(datas[fold])
+    reused += (id(fd_f) == prev_id)
+    prev_id = id(fd_f)
+    try:
+      got = [c for c, _, _ in fedjax.client_samplers.UniformGetClientSampler(fd_f, 3, seed=17, start_round_num=2).sample()]
+    except Exception as ex:  # pylint: disable=broad-except
+      got = f'{type(ex).__name__}: {str(ex)[:80]}'
+    if got != wants[fold] and bad_fold is None:
+      bad_fold = (fold, got, wants[fold])
+    del fd_f
+  ctx.case(key=('datasets-come-and-go',), nontrivial=reused > 0)
+  if bad_fold:
+    ctx.violation('sampler-over-a-new-dataset-object', f'fold {bad_fold[0]}: a sampler over a freshly built dataset (seed 17, round 2) returns {bad_fold[1]}, a sampler over an equal '
+                  f'dataset that was kept alive returns {bad_fold[2]} ({reused} of 24 datasets were placed at the address of the one dropped before)', replay={'fold': bad_fold[0]})
 
   # binding control
   import copy
